@@ -24,10 +24,7 @@ Theorem narrowest : forall m, 0 <= m < 2 ^ 64 ->
   In (narrowest_ws m) [1; 2; 4; 8]%nat /\ fits (narrowest_ws m) m /\
   (forall w, In w [1; 2; 4; 8]%nat -> fits w m -> (narrowest_ws m <= w)%nat) /\
   itemsize (fit_dtype m 0) = Z.of_nat (narrowest_ws m).
-Proof.
-  exact (fun m H => conj (narrowest_in m) (conj (narrowest_fits m m (conj (proj1 H) (Z.le_refl m)) (proj2 H))
-         (conj (fun w Hw Hf => narrowest_least m w (proj1 H) Hw Hf) (fit_is_narrowest m (proj1 H))))).
-Qed.
+Proof. exact RoundTrip.narrowest_spec. Qed.
 Print Assumptions narrowest.
 
 (* the recorded payload size is the real payload length whenever save returns - for ANY dict and any
